@@ -175,10 +175,14 @@ def dispatch_v6(
         return reactor_cmd.comment, [], command
 
     tree = _get_v6_tree()
-    handler, peers = dispatch(tree, tokeniser, reactor, service)
+    handler, selected = dispatch(tree, tokeniser, reactor, service)
+    peers = selected if selected is not None else []
 
     # Some handlers require all peers if none specified
     if handler in _v6_needs_peers() and not peers:
+        if selected is not None:
+            # a selector was given and matched nobody: that is not "all peers"
+            raise NoMatchingPeers(command)
         peers = list(reactor.peers(service))
         if not peers:
             raise NoMatchingPeers(command)
